@@ -29,6 +29,11 @@ fn main() {
     if args.is_empty() {
         usage();
     }
+    if args[0] == "nest" {
+        install_panic_hook();
+        let depth: usize = args.get(2).and_then(|d| d.parse().ok()).unwrap_or(1);
+        std::process::exit(props::c12::nest_child(args.get(1).map(|s| s.as_str()).unwrap_or(""), depth));
+    }
     let mut tier = match std::env::var("VERIF_TIER").as_deref() {
         Ok("thorough") => Tier::Thorough,
         _ => Tier::Quick,
